@@ -167,7 +167,7 @@ prop("C02", "other",
      "casts on the decode path are widening, stored field types and the Python conversion type match the SMI type; the six "
      "big-endian folds have the canonical step (acc << 8) | octet over take(h.length) (unknown shapes: inconclusive); "
      "IpAddress octet order; no overflow site in the decoders (shared with C01).",
-     [("C02.dispatch", codec.dispatch), ("C02.pair", codec.pair), ("C02.extent", codec.extent), ("C02.width", codec.width), ("C02.hdr", codec.hdr_reject),
+     [("C02.dispatch", codec.dispatch), ("C02.pair", codec.pair), ("C02.extent", codec.extent), ("C02.width", codec.width), ("C02.hdr", codec.hdr_reject), ("C02.oidtext", codec.oid_print),
       ("C02.fold", codec.fold), ("C02.ip", codec.ipaddr), ("C02.sites", codec.hdr_contract)])
 
 prop("C08", "other",
@@ -176,7 +176,7 @@ prop("C08", "other",
      "group of every arm proven within 1..127 (0..127 for one octet) from the engine's cast facts; parse errors propagate, two "
      "arcs mandatory; every panic site of both conversions discharged; OID text enters only through this conversion and a "
      "failure returns before the send. NOT decided: print(parse(s)) = s and the base-128 arithmetic of rewritten encoders.",
-     [("C08.text", codec.oid_text), ("C08.entry", codec.oid_entry), ("C08.sites", numrules.c08_sites)])
+     [("C08.text", codec.oid_text), ("C08.entry", codec.oid_entry), ("C08.sites", numrules.c08_sites), ("C08.print", codec.oid_print)])
 
 prop("C15", "other",
      "Necessary conditions only (round-trip equality over all i64 / OIDs is NOT decided): no undischarged overflow, negation or "
